@@ -415,3 +415,29 @@ def read_count_uses(b, c):
     if counts & rh:
         uses.add("ret")
     return uses, counts
+
+
+def succ_without_constant_option_tests(b):
+    """successor lists with the infeasible edge of `match None::<T> { Some(x) => .., None => .. }` removed - the type-inference prelude that
+    #[async_trait] puts in front of every method body (`if let Some(__ret) = None::<Ret> { return __ret; }`): a switch on the discriminant of a
+    local that the same block just assigned a constant Option / Result variant"""
+    idx = {"None": 0, "Some": 1, "Ok": 0, "Err": 1}
+    succ2 = [list(v) for v in b.succ]
+    for i, blk in enumerate(b.blocks):
+        t = blk["t"]
+        if t["k"] != "Switch" or t["d"]["k"] not in ("cp", "mv") or len(t["d"]["p"]) != 1:
+            continue
+        dl = t["d"]["p"][0]
+        disc = [s_ for s_ in blk["s"] if s_["p"] == [dl] and s_["r"]["k"] == "Discr" and len(s_["r"]["p"]) == 1]
+        if not disc:
+            continue
+        src = disc[-1]["r"]["p"][0]
+        aggs = [s_ for s_ in blk["s"] if s_["p"] == [src]]
+        if len(aggs) != 1 or aggs[0]["r"]["k"] != "Agg" or aggs[0]["r"].get("variant") not in idx or not re.search(r"option::Option$|result::Result$", aggs[0]["r"].get("adt", "")):
+            continue
+        if len(b.defs.get(src, [])) != 1:
+            continue
+        v = idx[aggs[0]["r"]["variant"]]
+        tgt = [x[1] for x in t["v"] if int(x[0]) == v]
+        succ2[i] = tgt if tgt else [t["o"]]
+    return succ2
